@@ -57,6 +57,7 @@ type Query struct {
 	End   int64  `json:"end,omitempty"`
 	Step  int64  `json:"step,omitempty"`
 	Hold  int    `json:"hold,omitempty"` // scheduler yields between receiving the result and reading it
+	LB    int64  `json:"lb,omitempty"`   // per-query lookback delta in ms (0: the engine's)
 }
 
 // Fault at a seam call of one query. N: for "select" the Select ordinal, for "next" select*1000+call, for
@@ -108,7 +109,7 @@ type metricDef struct {
 	kind seriesKind
 }
 
-var metricDefs = []metricDef{{"g", kGauge}, {"c", kCounter}, {"h", kHist}, {"hg", kGaugeHist}, {"mix", kMixed}, {"b_bucket", kBucket}}
+var metricDefs = []metricDef{{"g", kGauge}, {"c", kCounter}, {"h", kHist}, {"hg", kGaugeHist}, {"mix", kMixed}, {"b_bucket", kBucket}, {"mg", kMixed}}
 
 func fbits(f float64) uint64 { return math.Float64bits(f) }
 
@@ -209,6 +210,12 @@ func genData(r *prng.R) ([]SeriesData, int64) {
 	}
 	if r.Chance(0.4) {
 		addSeries(kMixed, []string{"__name__", "mix", "job", "a"})
+	}
+	if r.Chance(0.3) {
+		// one metric whose series differ in type: a float series first, native histograms after it
+		addSeries(kGauge, []string{"__name__", "mg", "instance", "0", "job", "a"})
+		addSeries(kHist, []string{"__name__", "mg", "instance", "1", "job", "a"})
+		addSeries(kHist, []string{"__name__", "mg", "instance", "2", "job", "a"})
 	}
 	if r.Chance(0.4) {
 		for _, le := range []string{"0.1", "1", "+Inf"} {
@@ -508,6 +515,9 @@ func Generate(prop, tier string, seed uint64) *Plan {
 			q.End = q.Start + q.Step*steps
 		}
 		q.Hold = rq.Intn(4)
+		if rq.Chance(0.12) {
+			q.LB = []int64{30000, 120000, 600000}[rq.Intn(3)] // this query's own lookback delta
+		}
 		p.Queries = append(p.Queries, q)
 	}
 
